@@ -105,6 +105,13 @@ example :
     (batchRemove t [1]).1.gidx.filterMap (entryId (batchRemove t [1]).1.players) = [2, 3] ∧
     t.gidx ≠ (batchRemove t [1]).1.gidx := by decide
 
+/-- who is admitted to the hand's list is decided by the `IsParticipated` flag `openGame` has just refreshed — the same
+snapshot of "dealt in" the rest of the open works with — in all three loops of `calcGamePlayerIndexes` (regenerated from
+table_engine_internal.go); `TB.gameIndexes` filters by `partOf`, the same flag -/
+theorem C02_list_membership_fact : Facts.handListTests =
+    ["players[playerIdx].IsParticipated", "playerIdx >= 0 && players[playerIdx].IsParticipated",
+     "playerIdx >= 0 && players[playerIdx].IsParticipated"] := by decide
+
 /-- **C02 — stable under everything that happens to other players while the hand runs**: a reservation, a batch
 join, a re-buy, an add-on and a join leave the hand's list alone and keep every existing player at his index. -/
 theorem C02_stable (s : State) :
